@@ -11,7 +11,7 @@ CHECK = {
  'rule': 'one race-instrumented process per schedule: scenario {regulation, stall raises, initialisation in progress, fans without PWM read-back and nothing stored (serial and parallel start)} x (API period, metrics period) x API phase offset x metrics phase offset (grid of 4 offsets quick / 9 thorough); '
          'four fans (two hwmon, two file; two of them with the built-in default control algorithm, two with direct) share function/pid/linear curves and one sensor; the API goroutine requests every list and item endpoint, the metrics goroutine gathers all collectors; each run covers start-up, '
          'regulation cycles, RPM polls, stall raises and shutdown restoration. A report is attributed to the racy SITE of each access: top non-harness fan2go function plus the text of the source statement (independent of line numbers and closure numbering), and for helpers in internal/util the first caller outside that package for the current access; every site so named is a violation unless listed. '
-         'distinct_nontrivial = distinct unordered frame pairs observed. Scenario window0: tempRollingWindowSize 0 and three sensors (two file sensors). Second run (observers are read-only): per fan kind {hwmon,file} x curve {linear, pid, function(pid+linear), maximum of two pid, function(linear)} the real daemon runs twice in virtual time, alone and with every REST list/item endpoint plus the metrics gatherer polled every 50 ms; the sequence of PWM values written to the fan must be identical.',
+         'distinct_nontrivial = distinct unordered frame pairs observed. Scenario window0: tempRollingWindowSize 0 and three sensors (two file sensors). Second run (observers are read-only): per fan kind {hwmon,file} x curve {linear, pid, function(pid+linear), maximum of two pid, function(linear)} the real daemon runs twice in virtual time, alone and with every REST list/item endpoint plus the metrics gatherer polled every 50 ms; the sequence of PWM values written to the fan must be identical. One file fan has home-relative paths (a documented form; every access resolves ~ first). Scenario sensorflap: the temperature input disappears for 250 ms out of every 900 ms while two metric scrapers are active.',
  'assumptions': ['Go race detector (happens-before; reports a race whenever two conflicting accesses are not ordered by the program\'s own synchronisation, whether or not they overlapped in this run)',
                  'device files are real tmpfs files; the harness adds no locks around them (no harness-made happens-before edges)',
                  'gosensors stand-in, vsignal stand-in',
